@@ -211,10 +211,14 @@ end Gms.MemTable
 namespace Gms.C13
 open Gms.MemTable
 
-/-- The call orders, increments and format verb the model was written against are the ones the
-extractor read from the source on this run. -/
+/-- The call orders, increments and format verbs the model was written against are the ones the
+extractor read from the source on this run. `getRowKey` prints every key value with `%v` and writes
+it length-prefixed (`"%d:%s,"` with `len(s), s`, no other write) — the repair of finding
+`pk_print_collision`: if the prefix disappears again this obligation breaks and
+`fixed_pk_print_collision` below is the replay. -/
 theorem facts_match :
-    Gms.Generated.C13.getRowKeyFormats = ["%v"] ∧ Gms.Generated.C13.getRowKeyWrites = 1
+    Gms.Generated.C13.getRowKeyFormats = ["%v", "%d:%s,"] ∧ Gms.Generated.C13.getRowKeyWrites = 0
+    ∧ Gms.Generated.C13.getRowKeyLenArgs = ["len(s)", "s"]
     ∧ Gms.Generated.C13.pkApplyEdits = ["deletes.Foreach", "deleteHelper", "adds.Foreach", "insertHelper", "tableData.sortRows"]
     ∧ Gms.Generated.C13.pkInsert = ["getRowKey", "adds.Set"]
     ∧ Gms.Generated.C13.pkDelete = ["getRowKey", "adds.Del", "deletes.Set"]
@@ -241,16 +245,21 @@ theorem facts_counts :
     ∧ Gms.Generated.C13.deleteIncs = [1] := by
   decide
 
-/-- **Keyed accumulator refines the keyed map** (`acc_refines_map`). For every stored table with
-distinct keys, every sequence of accumulator `Insert`/`Delete` calls whose rows have pairwise
-distinguishable printed keys (`KeyInjOn`), and no case-insensitive column: the table produced by
-`ApplyEdits` denotes exactly the map obtained by applying the same calls, in order, to the map
+/-- **Keyed accumulator refines the keyed map** (`acc_refines_map`) — full statement since the repair
+of `pk_print_collision` (it needed the guard `KeyInjOn` before). For every stored table with
+distinct keys, every sequence of accumulator `Insert`/`Delete` calls on typed rows (key columns
+hold values of the declared kinds, `KeyTyped`), and no case-insensitive column: the table produced
+by `ApplyEdits` denotes exactly the map obtained by applying the same calls, in order, to the map
 the stored table denoted; and its keys are still distinct. -/
 theorem pk_acc_refines_map (sch : Schema) (t : List Row) (calls : List AccCall)
-    (hci : NoCi sch) (hnd : NoDupPk sch.pk t) (hinj : KeyInjOn sch.pk (calls.map AccCall.row)) :
+    (hci : NoCi sch) (hnd : NoDupPk sch.pk t) (hty : ∀ c ∈ calls, KeyTyped sch c.row) :
     absT sch.pk (pkApply sch (calls.foldl (accStepPk sch) (mkEd t)))
         = calls.foldl (specStepK sch.pk) (absT sch.pk t)
       ∧ NoDupPk sch.pk (pkApply sch (calls.foldl (accStepPk sch) (mkEd t))) := by
+  have hinj : KeyInjOn sch.pk (calls.map AccCall.row) :=
+    keyInjOn_typed sch _ (fun r hr => by
+      obtain ⟨c, hc, e⟩ := List.mem_map.mp hr
+      rw [← e]; exact hty c hc)
   have hwf : AccWF sch.pk (calls.map AccCall.row) (mkEd t) :=
     ⟨by simp [mkEd], by simp [mkEd], by simp [mkEd]⟩
   obtain ⟨f1, f2, f3⟩ := fold_eff sch (calls.map AccCall.row) hinj calls
@@ -264,39 +273,38 @@ theorem pk_acc_refines_map (sch : Schema) (t : List Row) (calls : List AccCall)
   simp [eff, mkEd]
 
 /-- non-vacuity of `pk_acc_refines_map`: an insert, an update-like delete+insert and a delete on
-a two-row table with a composite key. -/
-example : KeyInjOn [0, 1] ([AccCall.ins [.int 3, .int 4, .int 0], .del [.int 1, .int 2, .int 9],
-    .ins [.int 1, .int 2, .int 7], .del [.int 5, .int 6, .int 0]].map AccCall.row) := by
-  intro r1 h1 r2 h2
-  simp only [List.map_cons, List.map_nil, AccCall.row, List.mem_cons, List.not_mem_nil, or_false] at h1 h2
-  rcases h1 with rfl | rfl | rfl | rfl <;> rcases h2 with rfl | rfl | rfl | rfl <;> decide
+a two-row table with a composite key — including the rows (1,23) / (12,3) of the old witness. -/
+example : ∀ c ∈ [AccCall.ins [.int 1, .int 23, .int 0], .del [.int 1, .int 2, .int 9],
+    .ins [.int 12, .int 3, .int 7], .del [.int 5, .int 6, .int 0]],
+    KeyTyped { cols := [{}, {}, {}], pk := [0, 1], uniques := [] } c.row := by
+  intro c hc k hk
+  simp only [List.mem_cons, List.not_mem_nil, or_false] at hc hk
+  rcases hc with rfl | rfl | rfl | rfl <;> rcases hk with rfl | rfl <;> decide
 
-/-- `getRowKey` separates key values whenever the key is a single column holding values of one
-kind (all integers or all strings): decimal printing is injective. -/
-theorem keyInj_single_col (c : Nat) (S : List Row)
-    (h : (∀ r ∈ S, ∃ i, r.at c = .int i) ∨ (∀ r ∈ S, ∃ b, r.at c = .str b)) : KeyInjOn [c] S := by
+/-- **`getRowKey` is injective on key values** (`keyInj`; the full statement, FALSE before the repair
+of `pk_print_collision`): for every schema — any number of key columns — and every set of typed
+rows, different key values get different map keys. -/
+theorem keyInj_typed (sch : Schema) (S : List Row) (h : ∀ r ∈ S, KeyTyped sch r) : KeyInjOn sch.pk S :=
+  keyInjOn_typed sch S h
+
+/-- … and for rows that merely agree on the kind of value in every key column (all integers or all
+strings in a column), whatever the schema says. -/
+theorem keyInj_same_kinds (pk : List Nat) (S : List Row)
+    (h : ∀ r1 ∈ S, ∀ r2 ∈ S, ∀ c ∈ pk, (r1.at c).kind = (r2.at c).kind) : KeyInjOn pk S := by
   intro r1 h1 r2 h2 hk
-  simp only [getRowKey, List.flatMap_cons, List.flatMap_nil, List.append_nil] at hk
-  simp only [proj, List.map_cons, List.map_nil, List.cons.injEq, and_true]
-  rcases h with h | h
-  · obtain ⟨i1, e1⟩ := h r1 h1
-    obtain ⟨i2, e2⟩ := h r2 h2
-    rw [e1, e2] at hk ⊢
-    simp only [printVal] at hk
-    rw [printInt_inj i1 i2 hk]
-  · obtain ⟨b1, e1⟩ := h r1 h1
-    obtain ⟨b2, e2⟩ := h r2 h2
-    rw [e1, e2] at hk ⊢
-    simp only [printVal] at hk
-    rw [hk]
+  exact getRowKey_inj pk r1 r2 (h r1 h1 r2 h2) hk
 
-/-- Full statement `∀ pk S, KeyInjOn pk S` is FALSE: witness (1,23) / (12,3) under a composite key. -/
-theorem finding_keyInj_composite :
-    ¬ KeyInjOn [0, 1] [[.int 1, .int 23, .int 0], [.int 12, .int 3, .int 1]] := by
-  intro h
-  have := h [.int 1, .int 23, .int 0] (by simp) [.int 12, .int 3, .int 1] (by simp) (by decide)
-  revert this
-  decide
+/-- The pre-fix key (no separator) was injective only for a single column: witness (1,23) / (12,3)
+under a composite key collided; under the repaired `getRowKey` the same rows are kept apart. -/
+theorem fixed_keyInj_composite :
+    getRowKeyPreFix [0, 1] [.int 1, .int 23, .int 0] = getRowKeyPreFix [0, 1] [.int 12, .int 3, .int 1]
+    ∧ proj [0, 1] [.int 1, .int 23, .int 0] ≠ proj [0, 1] [.int 12, .int 3, .int 1]
+    ∧ KeyInjOn [0, 1] [[.int 1, .int 23, .int 0], [.int 12, .int 3, .int 1]] := by
+  refine ⟨by decide, by decide, ?_⟩
+  apply keyInj_same_kinds
+  intro r1 h1 r2 h2 c hc
+  simp only [List.mem_cons, List.not_mem_nil, or_false] at h1 h2 hc
+  rcases h1 with rfl | rfl <;> rcases h2 with rfl | rfl <;> rcases hc with rfl | rfl <;> decide
 
 /-- **Keyless accumulator refines the multiset** (`keyless_acc_refines_multiset`). For every
 keyless table, every sequence of accumulator calls in which each `Delete` names a row present at
@@ -330,25 +338,26 @@ Proved for the statement kinds whose unique checks never meet a pending delete:
 
 **Plain multi-row INSERT** on a keyed table: same outcome (all rows inserted, or ERROR 1062 and
 nothing changed) and same table contents as the Spec, for every table satisfying the key
-invariant and every row list — guards: no case-insensitive column (¬`ci_collation_key`), no prefix
-index (¬`prefix_bytes_vs_chars`), printed keys of the new rows distinguishable
-(¬`pk_print_collision`), key columns not NULL. -/
+invariant and every list of typed rows — guards: no case-insensitive column (¬`ci_collation_key`),
+no prefix index (¬`prefix_bytes_vs_chars`), key columns not NULL. (The former guard "printed keys
+of the new rows distinguishable" is gone with the repair of `pk_print_collision`.) -/
 theorem insert_stmt_refines_partial (sch : Schema) (hk : sch.keyless = false) (hci : NoCi sch) (hnp : NoPrefix sch)
-    (t rows : List Row) (ht : NoDupPk sch.pk t ∧ ListOK sch t) (hinj : KeyInjOn sch.pk rows)
+    (t rows : List Row) (ht : NoDupPk sch.pk t ∧ ListOK sch t) (hty : ∀ r ∈ rows, KeyTyped sch r)
     (hnn : ∀ r ∈ rows, hasNullForAnyCols r sch.pk = false) :
     (implStmt sch t (.insert false rows)).1 = (specStmt sch t (.insert false rows)).1
       ∧ ((implStmt sch t (.insert false rows)).2).Perm ((specStmt sch t (.insert false rows)).2) :=
-  insert_stmt_refines sch hk hci hnp t rows ht hinj hnn
+  insert_stmt_refines sch hk hci hnp t rows ht (keyInjOn_typed sch rows hty) hnn
 
 /-- **DELETE** (WHERE / ORDER BY / LIMIT, and the TRUNCATE rewrite) on a keyed table: the Impl model
-removes exactly the selected rows and reports their number — guards: no case-insensitive column,
-printed keys of the stored rows distinguishable. -/
+removes exactly the selected rows and reports their number, for every table of typed rows — guard:
+no case-insensitive column. (The former guard "printed keys of the stored rows distinguishable"
+is gone with the repair of `pk_print_collision`.) -/
 theorem delete_stmt_refines_partial (sch : Schema) (hk : sch.keyless = false) (hci : NoCi sch)
-    (t : List Row) (ht : NoDupPk sch.pk t) (hinj : KeyInjOn sch.pk t)
+    (t : List Row) (ht : NoDupPk sch.pk t) (hty : ∀ r ∈ t, KeyTyped sch r)
     (wh : List Cond) (ord : List (Nat × Bool)) (lim : Option Nat) :
     (implStmt sch t (.delete wh ord lim)).1 = (specStmt sch t (.delete wh ord lim)).1
       ∧ ((implStmt sch t (.delete wh ord lim)).2).Perm ((specStmt sch t (.delete wh ord lim)).2) :=
-  delete_stmt_refines sch hk hci t ht hinj wh ord lim
+  delete_stmt_refines sch hk hci t ht (keyInjOn_typed sch t hty) wh ord lim
 
 /-- non-vacuity of the two statement theorems' hypotheses on a concrete table with a unique index. -/
 example : (implStmt ⟨[{}, {}], [0], [([1], [0])]⟩ [[.int 1, .int 5], [.int 2, .int 6]]
@@ -356,21 +365,26 @@ example : (implStmt ⟨[{}, {}], [0], [([1], [0])]⟩ [[.int 1, .int 5], [.int 2
     ∧ (implStmt ⟨[{}, {}], [0], [([1], [0])]⟩ [[.int 1, .int 5], [.int 2, .int 6]]
       (.delete [.cmp .ge 1 (.int 6)] [] none)) = (.ok 1 0, [[.int 1, .int 5]]) := by decide
 
-/-! ### Statement level: findings on the unchanged tree (Impl model ≠ Spec) -/
+/-! ### Statement level: the repaired finding, and the findings that remain on the unchanged tree (Impl model ≠ Spec) -/
 
 def schComposite : Schema := { cols := [{}, {}, {}], pk := [0, 1], uniques := [] }
 def schUnique : Schema := { cols := [{}, {}], pk := [0], uniques := [([1], [0])] }
 def schUnique3 : Schema := { cols := [{}, {}, {}], pk := [0], uniques := [([1], [0])] }
 
-/-- Full statement: `∀ sch t s, implStmt sch t s = specStmt sch t s` — FALSE on the unchanged code. -/
-theorem finding_pk_print_collision :
-    ∃ sch t s, regionPrintCollision sch t s = true ∧ implStmt sch t s ≠ specStmt sch t s :=
-  ⟨schComposite, [], .insert false [[.int 1, .int 23, .int 0], [.int 12, .int 3, .int 1]], by decide, by decide⟩
-
-/-- REPLACE through the same collision loses the row (1,23). -/
-theorem finding_pk_print_collision_replace :
-    (implStmt schComposite [] (.replace [[.int 1, .int 23, .int 0], [.int 12, .int 3, .int 1]])).2
-      = [[.int 12, .int 3, .int 1]] := by decide
+/-- **Repaired defect `pk_print_collision`.** The statements of the old witness lie in the value
+class on which the pre-fix code failed (two rows of one statement with different key values and
+the same pre-fix printed key `123`: INSERT was rejected with a false duplicate, REPLACE lost the
+row (1,23)); the Impl model of the repaired code gives them the outcome and the table of the Spec. -/
+theorem fixed_pk_print_collision :
+    regionPrintCollisionPreFix schComposite [] (.insert false [[.int 1, .int 23, .int 0], [.int 12, .int 3, .int 1]]) = true
+    ∧ getRowKey schComposite.pk [.int 1, .int 23, .int 0] ≠ getRowKey schComposite.pk [.int 12, .int 3, .int 1]
+    ∧ implStmt schComposite [] (.insert false [[.int 1, .int 23, .int 0], [.int 12, .int 3, .int 1]])
+        = specStmt schComposite [] (.insert false [[.int 1, .int 23, .int 0], [.int 12, .int 3, .int 1]])
+    ∧ implStmt schComposite [] (.replace [[.int 1, .int 23, .int 0], [.int 12, .int 3, .int 1]])
+        = specStmt schComposite [] (.replace [[.int 1, .int 23, .int 0], [.int 12, .int 3, .int 1]])
+    ∧ (implStmt schComposite [] (.replace [[.int 1, .int 23, .int 0], [.int 12, .int 3, .int 1]])).2
+        = [[.int 1, .int 23, .int 0], [.int 12, .int 3, .int 1]] := by
+  refine ⟨by decide, by decide, by decide, by decide, by decide⟩
 
 theorem finding_unique_check_ignores_pending_edits :
     ∃ sch t s, (implStmtE sch t s).2.inexact = true ∧ implStmt sch t s ≠ specStmt sch t s
